@@ -77,6 +77,9 @@ KERNEL int K(k_th_invert_flip)(const size_t* shape, const unsigned* data, const 
   a2_t a; if (!mk2(a,shape,data)) return -1; STEP1(2, view::invert(view::flip(a, p[0]))) }
 KERNEL int K(k_th_invert_flip_transpose)(const size_t* shape, const unsigned* data, const int* p, unsigned* out, size_t* oshape, GEOM){
   a2_t a; if (!mk2(a,shape,data)) return -1; STEP1(2, view::invert(view::flip(view::transpose(a, mk_arr<int,2>(p)), p[2]))) }
+// depth 3 whose stages do NOT commute (index maps only): flip(transpose(flip(a, p[3]), (p[0],p[1])), p[2]) - an extraction that re-orders the chain changes the result
+KERNEL int K(k_th_flip_transpose_flip)(const size_t* shape, const unsigned* data, const int* p, unsigned* out, size_t* oshape, GEOM){
+  a2_t a; if (!mk2(a,shape,data)) return -1; STEP1(2, view::flip(view::transpose(view::flip(a, p[3]), mk_arr<int,2>(p)), p[2])) }
 KERNEL int K(k_th_sum)(const size_t* shape, const unsigned* data, const int* p, unsigned* out, size_t* oshape, GEOM){
   a2_t a; if (!mk2(a,shape,data)) return -1; STEP1(1, view::sum(a, p[0])) }
 // CUDA-faithful operand kind: cuda::context_t::create_array (cuda/context.hpp:161-200) hands the kernel a
